@@ -35,10 +35,19 @@ def distinct(specs):
     out, seen = [], []
     for s in specs:
         v = pyval(s)
-        try:
-            dup = any(v == w and type(v) == type(w) or v == w for w in seen)
-        except Exception:
-            dup = False
+        dup = False
+        for w in seen:
+            try:                      # (a comparison may raise, e.g. np.bool_(True) == 2**70: then compare by Python's hash)
+                same = bool(v == w)
+            except Exception:
+                same = False
+            try:
+                same = same or (hash(v) == hash(w) and bool(w == v))
+            except Exception:
+                pass
+            if same:
+                dup = True
+                break
         if not dup:
             seen.append(v)
             out.append(s)
